@@ -329,4 +329,101 @@ Judge_sensitivity_props(e) ==
                 \cup {"influence:" \o e.infl[j][1] : j \in {x \in 1..Len(e.infl) : HasName(c, e.infl[x][1]) /\ Idx(c, e.infl[x][1]) \in sp
                                                              /\ e.infl[x][2] * (2^k) # e.infl[x][3] * Cardinality(dif[Idx(c, e.infl[x][1])])}}
                 \cup (IF e.avg_num * (2^k) = e.avg_den * total THEN {} ELSE {"avg_sensitivity"}))
+
+(* C18  acyclic_unroll(c) on a cyclic c (all-bits method: node i of c is bit i; <= MaxBits nodes) *)
+\* the relation for a given attribution aux : (aux input name of r) -> node index of c
+StableOK(c, r, aux) ==
+  LET n == c.n
+      U == AllTab[n]
+      cons == Consistent(c)
+      fv == [i \in FreeNodes(r) |->
+               LET nm == r.names[i] IN
+               IF nm \in DOMAIN aux THEN KCol(ColTab[n][aux[nm]])
+               ELSE IF HasName(c, nm) THEN KCol(ColTab[n][Idx(c, nm)]) ELSE KX(U)]
+      vr == Eval(r, U, fv)
+  IN \A o \in Outputs(c) : HasName(r, c.names[o]) /\
+        LET w == vr[Idx(r, c.names[o])] IN w.one \cap cons = ColTab[n][o] \cap cons /\ w.x \cap cons = {}
+AuxHint(c, A) ==   \* c<k>_aux_in_<f>  |->  f
+  [a \in A |-> LET p == CHOOSE q \in 1..Len(a) : q + 7 <= Len(a) /\ SubSeq(a, q, q + 7) = "_aux_in_"
+               IN SubSeq(a, p + 8, Len(a))]
+HintUsable(c, A) == \A a \in A : (\E q \in 1..Len(a) : q + 7 <= Len(a) /\ SubSeq(a, q, q + 7) = "_aux_in_")
+Judge_acyclic_unroll_cyclic(e) ==
+  IF e.exc # "" THEN Raised(e) ELSE
+  LET c == e.c  r == e.r
+      A == InputNames(r) \ InputNames(c)
+  IN (IF WellFormedRec(c) /\ WellFormedRec(r) THEN {} ELSE {"MACHINERY:malformed_record"})
+     \cup (IF r.acyc /\ ~IsTopo(r) THEN {"MACHINERY:not_topological"} ELSE {})
+     \cup (IF r.acyc THEN {} ELSE {"result_cyclic"})
+     \cup (IF LintClean(r) THEN {} ELSE {"result_not_lint_clean"})
+     \cup (IF OutputNames(r) = OutputNames(c) THEN {} ELSE {"outputs_changed"})
+     \cup (IF InputNames(c) \subseteq InputNames(r) THEN {} ELSE {"inputs_lost"})
+     \cup (IF ~r.acyc \/ c.n > MaxBits \/ OutputNames(r) # OutputNames(c) THEN {}
+           ELSE IF HintUsable(c, A) /\ (\A a \in A : HasName(c, AuxHint(c, A)[a]))
+                   /\ StableOK(c, r, [a \in A |-> Idx(c, AuxHint(c, A)[a])]) THEN {}
+           ELSE IF Cardinality(A) <= 3 /\ (\E f \in [A -> 1..c.n] : StableOK(c, r, f)) THEN {}
+           ELSE {"stable_states_not_preserved"})
+
+(* C17  supergates(c): e.c (fan-in <= 2, so that the fan-in-limited circuit is c itself), e.L (sequence of indexed
+   supergate circuits, in the returned order; for the super-circuit form a topological order supplied as a hint),
+   e.form = "list" | "super", e.superc (super form only) *)
+RECURSIVE AncClose(_,_)
+AncClose(c, S) == LET P == S \cup UNION {FiSet(c, i) : i \in S} IN IF P = S THEN S ELSE AncClose(c, P)
+SgInputs(sg)   == NamesOf(sg, Inputs(sg))
+SgInternal(sg) == NameSet(sg) \ SgInputs(sg)
+\* compose the supergates in list order: env maps produced node names to truth tables over c's free signals
+RECURSIVE Compose(_,_,_,_,_)
+Compose(c, U, L, j, env) ==
+  IF j > Len(L) THEN env
+  ELSE LET sg == L[j]
+           ok == \A i \in Inputs(sg) : sg.names[i] \in DOMAIN env
+       IN IF ~ok \/ ~sg.acyc \/ ~IsTopo(sg) THEN env
+          ELSE LET vals == Eval(sg, U, [i \in FreeNodes(sg) |-> IF sg.names[i] \in DOMAIN env THEN env[sg.names[i]] ELSE KX(U)])
+               IN Compose(c, U, L, j + 1, [nm \in SgInternal(sg) |-> vals[Idx(sg, nm)]] @@ env)
+Judge_supergates(e) ==
+  IF e.exc # "" THEN Raised(e) ELSE
+  LET c == e.c  L == e.L
+      cone == AncClose(c, Outputs(c))
+      producedBy(nm) == {j \in 1..Len(L) : nm \in SgInternal(L[j])}
+  IN Machinery(c)
+     \cup UNION { LET sg == L[j]  tag == "@" \o ToString(j) IN
+                  (IF WellFormedRec(sg) THEN {} ELSE {"MACHINERY:malformed_record"})
+                  \cup (IF Cardinality(Outputs(sg)) = 1 THEN {} ELSE {"not_single_output" \o tag})
+                  \cup (IF NameSet(sg) \subseteq NameSet(c) THEN {} ELSE {"node_not_in_circuit" \o tag})
+                  \cup (IF ~(NameSet(sg) \subseteq NameSet(c)) THEN {} ELSE
+                        (IF EdgeNames(sg) = {ed \in EdgeNames(c) : ed[1] \in NameSet(sg) /\ ed[2] \in NameSet(sg)} THEN {}
+                         ELSE {"wiring_not_induced" \o tag})
+                        \cup {"internal_node_differs:" \o nm \o tag : nm \in {x \in SgInternal(sg) :
+                                 sg.ty[Idx(sg, x)] # c.ty[Idx(c, x)] \/ FiNames(sg, Idx(sg, x)) # FiNames(c, Idx(c, x))}}
+                        \cup {"inputs_share_fanin:" \o pr[1] \o "," \o pr[2] \o tag :
+                                 pr \in {q \in SgInputs(sg) \X SgInputs(sg) : q[1] # q[2] /\
+                                           AncClose(c, {Idx(c, q[1])}) \cap AncClose(c, {Idx(c, q[2])}) # {}}})
+                  : j \in 1..Len(L) }
+     \cup {"gate_not_covered:" \o c.names[i] : i \in {k \in cone : c.ty[k] \in Gates /\ producedBy(c.names[k]) = {}}}
+     \cup (IF e.form # "list" THEN {} ELSE
+           {"not_topological:" \o ToString(j) : j \in {k \in 1..Len(L) :
+               \E a \in SgInputs(L[k]) : \E q \in producedBy(a) : q > k /\ ~(\E q2 \in producedBy(a) : q2 < k)}})
+     \cup (IF ~c.acyc \/ NFree(c) > MaxBits \/ (\E j \in 1..Len(L) : ~WellFormedRec(L[j])) THEN {}
+           ELSE LET U == StdU(c)
+                    v == EvalStd(c)
+                    env0 == [nm \in FreeNames(c) |-> v[Idx(c, nm)]]
+                    env == Compose(c, U, L, 1, env0)
+                IN {"composition_differs_at_output:" \o c.names[o] : o \in {k \in Outputs(c) :
+                        c.ty[k] \in Gates /\ (c.names[k] \notin DOMAIN env \/ env[c.names[k]] # v[k])}})
+     \cup (IF e.form # "super" THEN {} ELSE
+           LET sc == e.superc IN
+           (IF WellFormedRec(sc) THEN {} ELSE {"MACHINERY:malformed_record"})
+           \cup (IF InputNames(sc) = InputNames(c) THEN {} ELSE {"supercircuit_inputs"})
+           \cup (IF OutputNames(sc) = OutputNames(c) THEN {} ELSE {"supercircuit_outputs"})
+           \cup (IF Len(sc.bbs) = Len(L) THEN {} ELSE {"supercircuit_instance_count"})
+           \cup UNION { LET sg == L[j]
+                            o == CHOOSE x \in OutputNames(sg) : TRUE
+                            inst == "sg_" \o o
+                        IN IF ~(\E b \in 1..Len(sc.bbs) : sc.bbs[b].inst = inst) THEN {"supercircuit_instance_missing:" \o inst}
+                           ELSE LET bb == BBOf(sc, inst) IN
+                                (IF Range(bb.ins) = SgInputs(sg) /\ Range(bb.outs) = {o} THEN {} ELSE {"supercircuit_pins:" \o inst})
+                                \cup {"supercircuit_pin_net:" \o Pin(inst, p) : p \in {x \in Range(bb.ins) :
+                                        ~HasName(sc, Pin(inst, x)) \/ FiNames(sc, Idx(sc, Pin(inst, x))) # {x}}}
+                                \cup (IF HasName(sc, Pin(inst, o)) /\ HasName(sc, o) /\ Pin(inst, o) \in FiNames(sc, Idx(sc, o))
+                                      THEN {} ELSE {"supercircuit_output_net:" \o inst})
+                        : j \in {k \in 1..Len(L) : Cardinality(Outputs(L[k])) = 1} })
 =============================================================================
